@@ -450,6 +450,10 @@ def sub(base, idx):
         idx = mk("slice", *a_)
         if all(x.op == "const" and x.a[0] is None for x in a_):
             return base  # x[slice(None)]: everything
+    # [(E0, E1) for x in it][i][k] is [Ek for x in it][i]: the component of one element of a list of tuples
+    if base.op == "sub" and base.a[0].op == "comp" and base.a[0].a[0] == "list" and base.a[0].a[1].op == "tuple" and idx.op == "const" and isinstance(idx.a[0], float) and not isinstance(idx.a[0], bool) and 0 <= idx.a[0] < len(base.a[0].a[1].a) and not any(z.op == "star" for z in base.a[0].a[1].a):
+        c = base.a[0]
+        return sub(mk("comp", "list", c.a[1].a[int(idx.a[0])], *c.a[2:]), base.a[1])
     # x[:, k][i] is x[i, k]
     if base.op == "sub" and base.a[1].op == "tuple" and len(base.a[1].a) == 2 and _is_full_slice(base.a[1].a[0]) and base.a[1].a[1].op == "const" and isinstance(base.a[1].a[1].a[0], float) and idx.op == "const" and isinstance(idx.a[0], float) and not isinstance(idx.a[0], bool):
         return mk("sub", base.a[0], mk("tuple", idx, base.a[1].a[1]))
